@@ -620,7 +620,7 @@ def sec_gatesets(ctx, rng, case):
     import cirq
 
     confs = _S["configs"]
-    cname, build = confs[case % len(confs)]
+    cname, build = confs[(case + case // len(confs)) % len(confs)]  # every block of len(confs) cases visits every configuration
     if cname == "sycamore" and ctx.tier == "thorough" and rng.random() < 0.25:
         cfg = _sycamore_tabulation_cfg()
     else:
@@ -1562,7 +1562,7 @@ def _dev_pasqal(ctx, rng, virtual):
 
 
 def sec_devices(ctx, rng, case):
-    kind = case % 6
+    kind = (case + case // 6) % 6
     if kind in (0, 1):
         _dev_grid(ctx, rng)
     elif kind == 2:
@@ -1576,7 +1576,7 @@ def sec_devices(ctx, rng, case):
 
 
 SECTIONS = [
-    ("gatesets", sec_gatesets, 14000, 110000, 3.0),
-    ("routing", sec_routing, 8000, 120000, 1.2),
-    ("devices", sec_devices, 2400, 24000, 0.5),
+    ("gatesets", sec_gatesets, 12000, 110000, 3.0),
+    ("routing", sec_routing, 7000, 120000, 1.2),
+    ("devices", sec_devices, 2000, 24000, 0.5),
 ]
